@@ -24,6 +24,7 @@ def E(x):
 
 INF = 1000000
 def from_(t, alias=""): return {"op": "from", "t": t, "alias": alias}
+def fromlit(cols, rows, alias=""): return {"op": "fromlit", "cols": list(cols), "rows": [[V(x) for x in r] for r in rows], "alias": alias}
 def item(e, n=""): return {"n": n, "e": E(e)}
 def select(*items): return {"op": "select", "items": [i if "e" in i and "n" in i else item(i) for i in items]}
 def exclude(*cols): return {"op": "exclude", "cols": [E(c) for c in cols]}
